@@ -71,7 +71,8 @@ def run(chk):
                     cases.append((name, text, path, det % path))
                     hs.append([{"op": "open", "uri": U1, "version": 1, "text": text},
                                {"op": "req", "method": "completion", "uri": U1, "line": text.count("\n") - 5, "char": 5,
-                                "answer": [{"uri": "", "sl": 20, "sc": 1, "el": 20, "ec": 2}], "detail": det % path}])
+                                "answer": [{"uri": "", "sl": 20, "sc": 1, "el": 20, "ec": 2}] * 2,
+                                "details": ['func F() (from "first/item/pkg")', det % path]}])
         # the request position must be mapped: use the position of `s` in "%p= s"
         comp = lproxy.compile_all(list(set(c[1] for c in cases)))
         for (name, text, path, det), h in zip(cases, hs):
@@ -91,10 +92,12 @@ def run(chk):
             why = None
             if ret.get("panic") or ret.get("err"):
                 why = "completion failed: %s" % ret
-            elif len(edits) != 1:
-                why = "expected exactly one additional edit for the template, got %s" % edits
+            elif len(edits) != 2:
+                why = "expected one additional edit per completion item, got %s" % edits
+            elif '"first/item/pkg"' not in edits[0]["uri"]:
+                why = "the first item's edit does not import its package: %r" % edits[0]["uri"]
             else:
-                e = edits[0]
+                e = edits[1]
                 ins = e["uri"]            # the harness carries the new text in this field
                 if "generated-file-edit" in ins:
                     why = "the edit for the generated file was passed to the editor unchanged"
@@ -111,7 +114,7 @@ def run(chk):
             if why:
                 nbad += 1
                 if nbad <= 3:
-                    chk.violation("oracle", why, head=name, template=text, path=path, detail=det)
+                    chk.violation("oracle", why, head=name, template=text, path=path, item_detail=det)
         res = lcompile.run_both([t.encode("utf-8") for t in new_texts], want_model=False)
         base = {t: r for (c, r, _), t in zip(lcompile.run_both([t.encode("utf-8") for t in old_imports], want_model=False), old_imports)}
         for (name, text, path, det, new), (c, ri, _) in zip(meta, res):
@@ -132,7 +135,7 @@ def run(chk):
             if why:
                 nbad += 1
                 if nbad <= 3:
-                    chk.violation("oracle", why, head=name, template=text, path=path, detail=det, edited=new)
+                    chk.violation("oracle", why, head=name, template=text, path=path, item_detail=det, edited=new)
             else:
                 chk.traces += 1
         chk.samples = [{"head": cases[0][0], "detail": cases[0][3], "template": cases[0][1][:200]}]
@@ -141,7 +144,7 @@ def run(chk):
 
 def replay(r):
     print(r.get("template"))
-    print("detail:", r.get("detail"))
+    print("detail:", r.get("item_detail"), r.get("detail"))
     print("edited:\n", r.get("edited"))
     print(r.get("detail_"), r.get("kind"))
     return 1
